@@ -31,7 +31,11 @@ NoFault == "none"
 \* nonstate   - the event has no state_key
 \* dup        - the state list carries a second event with the same (type, state_key)
 \* malformed  - the bytes in the response are not a parsable event
-FaultKinds == {"badsig", "disallowed", "missing", "wrongroom", "nonstate", "dup", "malformed"}
+\* create_prevs / create_domain - the create event itself breaks the create rules (it has prev_events / its room
+\*              ID is not of its sender's domain; the whole room then carries that room ID), everything built on
+\*              it being consistent.  A create event is allowed by the create rules alone.
+CreateFaults == {"create_prevs", "create_domain"}
+FaultKinds == {"badsig", "disallowed", "missing", "wrongroom", "nonstate", "dup", "malformed"} \cup CreateFaults
 ProvKinds == {"returns", "nothing", "errors"}
 
 (***************************************************************************)
@@ -71,7 +75,13 @@ StIn(EM, F, A, e) ==
     [StOf(EM, A) EXCEPT !.create.room = IF cr # {} /\ RoomOf(F, CHOOSE c \in cr : TRUE) = RoomOf(F, e) THEN "same" ELSE "other",
                         !.mixedrooms = Cardinality({RoomOf(F, a) : a \in A}) > 1]
 
-Allow(EM, F, A, e) == Allowed(Ver, StIn(EM, F, A, e), EvOf(EM, e))
+\* the event as the rules see it
+EvIn(EM, F, e) ==
+    CASE F[e] = "create_prevs" -> [EvOf(EM, e) EXCEPT !.c_prevs = TRUE]
+      [] F[e] = "create_domain" -> [EvOf(EM, e) EXCEPT !.c_domain = "mismatch"]
+      [] OTHER -> EvOf(EM, e)
+
+Allow(EM, F, A, e) == Allowed(Ver, StIn(EM, F, A, e), EvIn(EM, F, e))
 
 (***************************************************************************)
 (* CheckStateResponse(auth list AL, state list SL)                         *)
@@ -190,7 +200,7 @@ LoadClassCited(EM, F, P, loc, e, S) ==     \* diagnosis only, see AuthAtStateCit
 \* an event carries a signature / auth fault: it must never be passed on
 \* (an event of another room is at fault unless the create event it cites is of that room too: the sentence does
 \* not ask for the room of a response to be checked, only for events to be allowed by their auth events)
-BadEvent(F, e) == \/ F[e] \in {"badsig", "disallowed"}
+BadEvent(F, e) == \/ F[e] \in {"badsig", "disallowed"} \cup CreateFaults
                   \/ E[e].type # "create" /\ RoomOf(F, e) # RoomOf(F, CreateId(E))
 \* an event and all events it cites are fault free: it must not be lost
 CleanEvent(F, e) == F[e] = NoFault /\ \A a \in E[e].auth : F[a] = NoFault
